@@ -1758,9 +1758,21 @@ def rejects_alone(env, f, v):
         return True
 
 
+def python_equal_json_distinct(v):
+    """Two elements of a JSON array that JSON keeps apart but Python's == identifies (false/0, true/1)."""
+    for i, a in enumerate(v):
+        for b in v[:i]:
+            if isinstance(a, bool) != isinstance(b, bool) and isinstance(a, (bool, int, float)) \
+                    and isinstance(b, (bool, int, float)) and a == b:
+                return True
+    return False
+
+
 def deep_culprit(env, f, v, depth=0):
     """Shape of the innermost declaration(s) responsible for the rejection of v."""
     t = f["t"]
+    if f.get("uniq") and isinstance(v, list) and python_equal_json_distinct(v):
+        return "uniqueItems-compared-with-Python-equality"
     if depth < 4:
         if t == "ref" and isinstance(v, dict) and f["cls"] in env.classes and not env.wrapper_form(f["cls"]):
             ren = dict(env.renames(f["cls"]))
